@@ -571,3 +571,146 @@ def shrink_query(client_factory, method, path, query, headers, sig) -> list:
                 changed = True
                 break
     return q
+
+
+# ------------------------------------------------------------------ values that arrive through STORED sources
+#
+# Stream.defaults is a JSON column: the defaults form validates what it stores, the JSON add-stream API
+# (PUT /streams/add, the populate script) and anything else that writes the column do not.  The grid below is
+# what a JSON client can put there: values `check_option_values` refuses in a URL, values `from_string`
+# refuses, out-of-range numbers, and JSON types the option does not have.
+
+def stored_refused_grid() -> list:
+    """[(label, defaults dict)] - fixed"""
+    big = 2 ** 31
+    A = [
+        {"utcMethod": "bogus"}, {"utcMethod": ""}, {"utcMethod": "NTP"},
+        {"drmSelection": "widevine"}, {"drmSelection": "playready-foo"}, {"drmSelection": "all-bogus"},
+        {"drmSelection": [["widevine", ["cenc"]]]}, {"drmSelection": ""}, {"drmSelection": "clearkey,,marlin"},
+        {"availabilityStartTime": "2023-05-01T00:00:00"}, {"availabilityStartTime": "P1D"},
+        {"availabilityStartTime": "garbage"}, {"availabilityStartTime": "0100-01-01T00:00:00Z"},
+        {"availabilityStartTime": "2024-03-05T10:20:30+99:00"}, {"availabilityStartTime": "9999-12-31T23:59:59Z"},
+        {"availabilityStartTime": "2024-03-05T10:20:31Z"}, {"availabilityStartTime": ""},
+        {"availabilityStartTime": "2024-03-05"}, {"availabilityStartTime": "10:20:30Z"},
+        {"timeShiftBufferDepth": 5000001}, {"timeShiftBufferDepth": -5}, {"timeShiftBufferDepth": big},
+        {"timeShiftBufferDepth": "abc"}, {"timeShiftBufferDepth": 0}, {"timeShiftBufferDepth": "5000001"},
+        {"clockDrift": 10 ** 12}, {"clockDrift": -3162240001}, {"clockDrift": "x"},
+        {"minimumUpdatePeriod": -1}, {"minimumUpdatePeriod": 0}, {"minimumUpdatePeriod": 3162240001},
+        {"leeway": -1}, {"leeway": 3162240001}, {"updateCount": -1}, {"updateCount": big * 2},
+        {"eventTypes": ["ping"], "ping": {"count": 10001}}, {"eventTypes": ["ping"], "ping": {"interval": 0}},
+        {"eventTypes": ["ping"], "ping": {"timescale": 0}}, {"eventTypes": ["ping"], "ping": {"start": -5, "inband": False}},
+        {"eventTypes": ["ping"], "ping": {"version": 2}}, {"eventTypes": ["ping"], "ping": {"duration": -1}},
+        {"eventTypes": ["ping"], "ping": "x"}, {"eventTypes": ["pong"]}, {"eventTypes": "ping"},
+        {"eventTypes": ["scte35"], "scte35": {"program_id": -1, "inband": False, "count": 2}},
+        {"eventTypes": ["scte35"], "scte35": {"program_id": 70000, "interval": 10}},
+        {"eventTypes": ["scte35"], "scte35": {"timescale": 0, "inband": False, "count": 2}},
+        {"videoErrors": [[404, "x"]]}, {"videoErrors": "junk"}, {"videoErrors": [[99999, 1]]},
+        {"videoErrors": [[404, "2024-01-01T00:00:00"]]}, {"videoErrors": [[404, "2024-03-05T10:20:30+99:00"]]},
+        {"videoErrors": [404]}, {"videoErrors": "404=x"}, {"audioErrors": [[404, None]]}, {"textErrors": [["a", "b"]]},
+        {"manifestErrors": [[404, "10:20:30"]]}, {"manifestErrors": "404=2024-03-05T10:20:30"},
+        {"failureCount": -1, "videoErrors": [[404, 1]]}, {"failureCount": "x"},
+        {"videoCorruption": ["a"]}, {"videoCorruption": ["1", "2"], "videoCorruptionFrameCount": -1},
+        {"videoCorruption": "2024-03-05T10:20:30"},
+        {"playready": {"licenseUrl": "https://lic/" + "a" * 5000}, "drmSelection": "playready"},
+        {"playready": {"licenseUrl": "{cfgs}" * 700}, "drmSelection": "playready"},
+        {"playready": {"version": 9.9}, "drmSelection": "playready"}, {"playready": {"piff": "x"}, "drmSelection": "all"},
+        {"marlin": {"licenseUrl": 5}, "drmSelection": "marlin"}, {"clearkey": None, "drmSelection": "clearkey"},
+        {"clearkey": {"licenseUrl": ["x"]}, "drmSelection": "all"},
+        {"mode": "bogus"}, {"nosuchoption": 1}, {"segmentTimeline": "maybe"}, {"utcValue": "x", "utcMethod": "direct"},
+        {"audioCodec": "nosuch"}, {"textCodec": 5}, {"mainAudio": "nosuch"}, {"mainText": ["x"]}, {"videoPlayer": "vlc"},
+        {"dashjsVersion": "0.0.0"}, {"shakaVersion": "x" * 300}, {"ntpSources": "bogus"}, {"ntpSources": ["bogus"]},
+        {"bugCompatibility": ["nosuch"]}, {"bugCompatibility": "saio"},
+    ]
+    return [(f"refused:{i}:{sorted(d)[0]}", d) for i, d in enumerate(A)]
+
+
+CONFUSED = [None, 5, -1, 1.5, True, [], ["x"], {}, {"a": 1}, "x" * 5000, "", [[1, 2]], 2 ** 63]
+
+
+def stored_confused_grid(rows: list, per_option: int = 2) -> list:
+    """every registered option once with JSON types it does not have (values in rotation)"""
+    out = []
+    k = 0
+    for r in rows:
+        for _ in range(per_option):
+            v = CONFUSED[k % len(CONFUSED)]
+            k += 1
+            d = {r["pfx"]: {r["full"]: v}} if r.get("pfx") else {r["full"]: v}
+            if r.get("pfx") in ("ping", "scte35"):
+                d["eventTypes"] = [r["pfx"]]
+            elif r.get("pfx"):
+                d["drmSelection"] = r["pfx"]
+            out.append((f"confused:{r['cgi']}:{type(v).__name__}", d))
+    return out
+
+
+# ---- the class of the open ledger finding `stored-default-unusable-value`: a stored value the option cannot hold
+# (decided from the value and the option's kind alone, never from the outcome)
+
+_STR_KINDS = (".strOrNone", ".strRaw", ".quotedUrl")
+_DT_WORDS = {"epoch", "now", "today", "month", "year"}
+
+
+def _entry_unusable(row: dict, v, nested: bool) -> bool:
+    import datetime
+    kind = row["kind"]
+    if v is None:
+        return not (kind.endswith("OrNone") or kind in (".drmSelection", ".listJoin", ".errorList", ".astDateTime",
+                                                        ".quotedUrl"))
+    numeric = "int" in kind.lower() or "float" in kind.lower()
+    if isinstance(v, str):
+        if kind in _STR_KINDS:
+            return False
+        if nested:
+            return True          # parse_stored_options does not restore the native type inside a prefix group
+        from dashlive.server.options.repository import OptionsRepository
+        opt = OptionsRepository.get_cgi_map()[row["cgi"]]
+        try:
+            parsed = opt.from_string(v)
+        except Exception:      # noqa: BLE001
+            return True
+        if kind in (".astDateTime", ".dtOrNone"):
+            if isinstance(parsed, datetime.datetime):
+                try:
+                    parsed.utcoffset()         # an offset of a day or more only fails when it is used
+                except Exception:      # noqa: BLE001
+                    return True
+            return not (isinstance(parsed, datetime.datetime) or (isinstance(parsed, str) and parsed in _DT_WORDS))
+        if numeric or kind == ".bool":
+            return parsed is None or isinstance(parsed, str)
+        return False
+    if kind == ".bool":
+        return type(v) is not bool
+    if numeric:
+        if type(v) is int:
+            return False
+        return not (type(v) is float and "float" in kind.lower())
+    if kind == ".listJoin":
+        return not (isinstance(v, list) and all(isinstance(x, str) for x in v))
+    if kind == ".errorList":
+        return not (isinstance(v, list) and all(
+            isinstance(x, list) and len(x) == 2 and type(x[0]) is int and type(x[1]) in (int, str) for x in v))
+    return True                  # string-like kinds (and drmSelection / date-times, stored as text) with a non-str value
+
+
+def stored_unusable(d, rows: list) -> bool:
+    if not isinstance(d, dict):
+        return True
+    plain = {r["full"]: r for r in rows if not r.get("pfx")}
+    groups = {}
+    for r in rows:
+        if r.get("pfx"):
+            groups.setdefault(r["pfx"], {})[r["full"]] = r
+    for name, v in d.items():
+        if name in plain:
+            if _entry_unusable(plain[name], v, False):
+                return True
+        elif name in groups:
+            if v is None:
+                continue
+            if not isinstance(v, dict):
+                return True
+            for k, x in v.items():
+                if k in groups[name] and _entry_unusable(groups[name][k], x, True):
+                    return True
+    return False
